@@ -1,5 +1,5 @@
 #!/venv/bin/python
-"""cross_seeded_refactors.py [prop ...]: every seeded (property-breaking) change applied ON TOP OF every behaviour-preserving
+"""cross_seeded_refactors.py [prop ...] (VERIF_CROSS_SINCE=<twin>:<seed> restricts to increments): every seeded (property-breaking) change applied ON TOP OF every behaviour-preserving
 refactor twin of the same property, where both patches apply. The check must still report a violation: detection must not depend
 on the code having the shape the rules were written against. Prints one line per combination that applies and a summary."""
 import glob
@@ -42,8 +42,16 @@ def main(argv):
     for prop in props:
         refs = sorted(glob.glob(os.path.join(HERE, "selftest", "refactors", f"{prop}-refactor-*.diff")))
         seeds = sorted(d for d in glob.glob(os.path.join(HERE, "seeded", f"{prop}-*")) if os.path.isdir(d))
+        # VERIF_CROSS_SINCE="<twin index>:<seed index>": only combinations in which the twin or the seed is newer than that (an increment)
+        since = os.environ.get("VERIF_CROSS_SINCE")
         for r in refs:
             for s in seeds:
+                if since:
+                    ti, si = (int(x) for x in since.split(":"))
+                    tn = int(os.path.basename(r)[:-5].rsplit("-", 1)[1])
+                    sn = int(os.path.basename(s).rsplit("-", 1)[1])
+                    if tn <= (ti if prop != "C05" else ti - 3) and sn <= si:
+                        continue
                 jobs.append((prop, r, os.path.join(s, "patch.diff")))
     tally = {}
     with ProcessPoolExecutor(max_workers=12) as ex:
